@@ -38,7 +38,17 @@ def job(j):
         for nm, o in (("a", x["l"]), ("b", x["r"])):
             if o["k"] == "sym":
                 env.bind(Arg(nm, getattr(T, f"Qint{o['w']}"), [f"{nm}.{k}" for k in range(o["w"])]))
-        src = f"{'a' if x['l']['k'] == 'sym' else x['l']['w']} {PYOP[x['op']]} {'b' if x['r']['k'] == 'sym' else x['r']['w']}"
+            elif o["k"] == "fx":
+                env.bind(Arg(nm, getattr(T, f"Qfixed{o['i']}_{o['f']}"), [f"{nm}.{k}" for k in range(o["i"] + o["f"])]))
+
+        def operand(nm, o):
+            if o["k"] in ("sym", "fx"):
+                return nm
+            if o["k"] == "flt":
+                return repr(o["num"] / o["den"])
+            return str(o["v"] if o["k"] == "int" else o["w"])
+
+        src = f"{operand('a', x['l'])} {PYOP[x['op']]} {operand('b', x['r'])}"
         rec = {"id": c["id"], "case": x, "src": src, "exc": "", "w": 0, "bits": []}
         signal.alarm(20)
         try:
@@ -59,9 +69,11 @@ def job(j):
 
 def run(sc, quick):
     if quick:
-        consts = "{Widths = {2, 3, 4}\n Consts = {0, 1, 3, 6, 12}\n MulMax = 3\n"
+        consts = ("{Widths = {2, 3, 4}\n Consts = {0, 1, 3, 6, 12}\n MulMax = 3\n FxLayouts = {12, 22, 13}\n"
+                  " FxFloats = {102, 304, 302, 108}\n")
     else:
-        consts = "{Widths = {2, 3, 4, 5}\n Consts = {0, 1, 2, 3, 5, 6, 7, 12, 17}\n MulMax = 4\n"
+        consts = ("{Widths = {2, 3, 4, 5}\n Consts = {0, 1, 2, 3, 5, 6, 7, 12, 17}\n MulMax = 4\n"
+                  " FxLayouts = {12, 22, 13, 23, 14}\n FxFloats = {102, 104, 304, 302, 101, 502, 108, 110}\n")
     cfg = "SPECIFICATION Spec\nCONSTANTS " + consts[1:] + "INVARIANT OK\nCHECK_DEADLOCK FALSE\n"
     r = tlc.run_model("MC_BitBlast", cfg, sc, workers=16, timeout=3000, tags=("B", "C"), heap="12g")
     if not r["ok"]:
